@@ -5,6 +5,7 @@ import (
 	"os"
 	"path/filepath"
 	"sort"
+	"sync/atomic"
 	"time"
 
 	"github.com/btcsuite/btcd/chaincfg"
@@ -67,12 +68,11 @@ func createTxEnv(dir string, u *txsim.Universe) (*txEnv, error) {
 	return e, nil
 }
 
-var copySeq int
+var copySeq int64
 
 // openTxCopy copies the snapshot file and opens a fresh store on the copy.
 func openTxCopy(dir, snapshot string, u *txsim.Universe, nowMs int64) (*txEnv, error) {
-	copySeq++
-	e := &txEnv{path: filepath.Join(dir, fmt.Sprintf("copy%d.db", copySeq))}
+	e := &txEnv{path: filepath.Join(dir, fmt.Sprintf("copy%d.db", atomic.AddInt64(&copySeq, 1)))}
 	if err := copyFile(snapshot, e.path); err != nil {
 		return nil, err
 	}
@@ -175,7 +175,7 @@ func txOpName(ev txsim.Event) string {
 func runTxCase(in input) (*caseOut, error) {
 	co := &caseOut{In: in}
 	u := txsim.Rebuild(in.Universe)
-	dir, err := os.MkdirTemp("", "vh-c10-tx-")
+	dir, err := tempDir("vh-c10-tx-")
 	if err != nil {
 		return nil, err
 	}
@@ -329,13 +329,30 @@ func genTxStates(r *gen.R, perHist, want int) []input {
 	}
 	sort.Ints(ps)
 	for _, p := range ps {
-		in := input{Kind: "tx", Universe: s.U.Txs, Events: evs[:p]}
+		in := input{Kind: "tx", Universe: s.U.Txs, Events: append([]txsim.Event{}, evs[:p]...)}
 		f := txsim.NewFacts()
-		nowMs := int64(0)
 		for _, e := range evs[:p] {
 			f.Apply(s.U, e)
-			if e.K == "tick" {
-				nowMs += e.Dt
+		}
+		// sometimes the state additionally holds a lease (still running, or
+		// expired but not swept) so that release / sweep have work to do
+		var leased *[2]int64
+		if r.Chance(1, 2) {
+			var known [][2]int64
+			for _, t := range s.U.Txs {
+				if f.Known(t.ID) {
+					for _, c := range t.Creds {
+						known = append(known, [2]int64{t.ID, c[0]})
+					}
+				}
+			}
+			if len(known) > 0 {
+				op := known[r.Intn(len(known))]
+				leased = &op
+				in.Events = append(in.Events, txsim.Event{K: "lease", ID: 1, Op: op, Dur: 500})
+				if r.Chance(1, 2) {
+					in.Events = append(in.Events, txsim.Event{K: "tick", Dt: 600})
+				}
 			}
 		}
 		add := func(e txsim.Event) {
@@ -402,12 +419,14 @@ func genTxStates(r *gen.R, perHist, want int) []input {
 		}
 		if len(cands) > 0 {
 			op := cands[r.Intn(len(cands))]
+			if leased != nil {
+				op = *leased
+			}
 			add(txsim.Event{K: "lease", ID: 1, Op: op, Dur: 1000})
 			add(txsim.Event{K: "release", ID: 1, Op: op})
 			add(txsim.Event{K: "release", ID: 2, Op: op})
 		}
 		add(txsim.Event{K: "sweep"})
-		_ = nowMs
 		if len(in.TxOps) == 0 {
 			continue
 		}
